@@ -257,6 +257,7 @@ pub struct GenOpts {
     pub force_nonneg: bool,    // always include at least one nonnegative cone
     pub allow_soc1: bool,      // singleton second-order cones (consolidated into nonnegative cones)
     pub degenerate: bool,      // empty cones, duplicated rows, zero columns (boundary shapes)
+    pub degenerate_chance: u32, // out of 8: chance that a problem is generated with `degenerate` on
 }
 
 impl GenOpts {
@@ -273,6 +274,7 @@ impl GenOpts {
             force_nonneg: false,
             allow_soc1: false,
             degenerate: false,
+            degenerate_chance: 1,
         }
     }
     pub fn thorough() -> Self {
@@ -407,6 +409,11 @@ fn gen_cones(cs: &mut ChoiceStream, o: &GenOpts) -> Vec<ConeSpec> {
 }
 
 pub fn gen_problem(cs: &mut ChoiceStream, o: &GenOpts) -> Prob {
+    let mut o = o.clone();
+    if !o.degenerate && o.degenerate_chance > 0 && cs.prob("degenerate", o.degenerate_chance, 8) {
+        o.degenerate = true;
+    }
+    let o = &o;
     let n = 1 + cs.choose("n", o.nmax) as usize;
     let mut cones = gen_cones(cs, o);
     let mut m: usize = cones.iter().map(|c| c.dim()).sum();
